@@ -18,6 +18,7 @@ C12-F1-negative-speed C12-advance-clock-outside C12
 C15-F8-captured-output-recorded C15-revert-record-at-write C15
 C15-F9-control-code-in-html C15-revert-simplify-control C15
 C15-F14-nested-capture C15-revert-capture-start C15
+C15-F16-refused-write-recorded C15-record-before-write C15
 C19-F10-flush-markup C19-revert-flush-verbatim C19
 C19-F15-sgr-reset-drops-link C19-revert-reset-keeps-link C19
 C20-F11-use-theme-inherit C20-revert-use-theme-inherit C20
